@@ -142,6 +142,7 @@ package linkedlist
 //@   ensures forall i :: 0 <= i && i < old(llb.bytes) ==> lview[llb][len(p) + i] == old(lview[llb][i])
 //@   ensures len(p) > 0 ==> fresh(nd(llb, 0).buf)
 //@   ensures forall a Ref :: (old(lbufs[llb])[a] ==> lbufs[llb][a]) && (lbufs[llb][a] ==> old(lbufs[llb])[a] || fresh(a))
+//@   ensures [C12] forall a Ref :: lbufs[llb][a] && !old(lbufs[llb])[a] ==> !released[a]
 //
 //@ func (llb *Buffer) PushBack(p []byte)
 //@   requires wf(llb)
@@ -152,6 +153,7 @@ package linkedlist
 //@   ensures forall t :: 0 <= t && t < len(p) ==> lview[llb][old(llb.bytes) + t] == p[t]
 //@   ensures len(p) > 0 ==> fresh(nd(llb, llb.size - 1).buf)
 //@   ensures forall a Ref :: (old(lbufs[llb])[a] ==> lbufs[llb][a]) && (lbufs[llb][a] ==> old(lbufs[llb])[a] || fresh(a))
+//@   ensures [C12] forall a Ref :: lbufs[llb][a] && !old(lbufs[llb])[a] ==> !released[a]
 //
 // Read: take of min(len(p), Buffered) bytes into p.
 //@ func (llb *Buffer) Read(p []byte) (n int, err error)
@@ -221,8 +223,11 @@ package linkedlist
 //@   ensures forall j :: 0 <= j && j < n ==> lview[llb][old(llb.bytes) + j] == rdata[ref(r)][old(rpos[ref(r)]) + j]
 //@   ensures forall x *node :: old(allocated(x)) && old(nown[x]) != llb ==> nown[x] == old(nown[x])
 //@   ensures forall a Ref :: (old(lbufs[llb])[a] ==> lbufs[llb][a]) && (lbufs[llb][a] ==> old(lbufs[llb])[a] || fresh(a))
+// C12: the pooled memory this call links into the list is held by the list alone, i.e. it has not been handed back to the pool.
+//@   ensures [C12] forall a Ref :: lbufs[llb][a] && !old(lbufs[llb])[a] ==> !released[a]
 //@   loop 1:
 //@     invariant forall a Ref :: (old(lbufs[llb])[a] ==> lbufs[llb][a]) && (lbufs[llb][a] ==> old(lbufs[llb])[a] || fresh(a))
+//@     invariant forall a Ref :: lbufs[llb][a] && !old(lbufs[llb])[a] ==> !released[a] && allocated(a)
 //@     invariant wf(llb) && llb == llb$0 && same(r, r$0) && n >= 0
 //@     invariant n == rpos[ref(r)] - old(rpos[ref(r)]) && llb.bytes == old(llb.bytes) + n
 //@     invariant forall i :: 0 <= i && i < old(llb.bytes) ==> lview[llb][i] == old(lview[llb])[i]
